@@ -342,8 +342,18 @@ fn id() -> Alias {
 }
 
 /// Apply the history to statement type S through the ConditionalStatement API.
-fn apply_calls<S: ConditionalStatement>(s: &mut S, calls: &[Call]) {
-    for c in calls {
+fn apply_calls<S: ConditionalStatement + QueryStatementBuilder>(s: &mut S, calls: &[Call]) {
+    // one history in three is rendered between its calls (both modes): what the conditions mean must not
+    // depend on whether the statement has been looked at on the way
+    let render_between = crate::apply::route(3) == 0;
+    for (i, c) in calls.iter().enumerate() {
+        if render_between && i > 0 {
+            let _ = vcore::run::guard(|| {
+                let mut o = String::new();
+                let _ = s.build_collect_any(crate::util::qb(crate::util::Dialect::Sqlite), &mut o);
+                s.build_any(crate::util::qb(crate::util::Dialect::Sqlite))
+            });
+        }
         match c {
             Call::CondWhere(g) => {
                 s.cond_where(build_g(g));
